@@ -335,12 +335,76 @@ def rule_gsd(ctx, tu):
                   "first cell whose running sum exceeds the target (strict)", "the cell is selected under `%s`, not under the strict "
                   "`target < cumul`: a cell with nothing of the species can be selected (zero does not stay zero; the correction "
                   "loop can spin on an empty cell)" % "; ".join(t for t, _ in sel)[:80], nontrivial=False)
+    # ... and the running sum the target is compared with adds up the *real-valued* amounts (the function's input state), the
+    # target being a fraction of their floored total: a cell whose real amount is zero has zero weight.  Weighting by the drawn
+    # state instead lets a zero cell keep what an unlucky draw gave it and leaves nothing to select from when every draw was 0
+    state_in = f.param_names()[0]
+    accs = [s2 for s2 in cxa.all_stores(f.body) if s2.base and s2.base[0] == "var" and s2.base[1].startswith("cumul") and
+            s2.op == "+=" and s2.rhs is not None]
+    ctx.need(accs, R, "GenerateStochasticDistribution: the running sum of the selection is not found")
+    for s2 in accs:
+        sub_ = subscript(strip(s2.rhs, casts=True))
+        src_ = name_of(strip(sub_[0], casts=True)) if sub_ is not None else None
+        ctx.check(src_ == state_in, R, s2.node, f.qual, text(s2.node)[:60], "weights = real-valued amounts of the input state",
+                  "the selection is weighted by `%s`, not by the real-valued amounts `%s`: a cell whose real amount is zero can be "
+                  "selected, and when the drawn amounts are all zero nothing can be selected (the loop never ends)"
+                  % (src_ or text(s2.rhs)[:30], state_in))
+    tg = [x for x in walk(f.body) if x.get("kind") == "VarDecl" and (x.get("name") or "").startswith("target") and kids(x)]
+    for x in tg:
+        srcs = {name_of(strip(subscript(y)[0], casts=True)) for y in walk(kids(x)[-1]) if subscript(y) is not None}
+        ctx.check(srcs == {"tot_species"}, R, x, f.qual, text(x)[:70], "target = u x floored real total", "the target is scaled by "
+                  "%s, not by the floored real-valued total" % sorted(s_ for s_ in srcs if s_))
     cfacts_ = [strip_facts(fc) for _, fc in cnt]
     for s2, fc in unit:
         ctx.check(strip_facts(fc) in cfacts_, R, s2.node, f.qual, text(s2.node)[:60] + " is counted", "each unit update advances "
                   "the counter", "a +-1 update of the drawn state is not counted: more molecules are moved than the difference "
                   "of the totals")
-    ctx.floor(R, 4)
+    ctx.floor(R, 6)
+    # C14.INTEGER: whatever is stored into the drawn state is a whole number
+    R = "C14.INTEGER"
+
+    def integral(e):
+        e = strip(e, casts=True)
+        k = e.get("kind")
+        ty = e.get("type", {}).get("qualType", "")
+        if ty in ("int", "long", "unsigned int", "size_t", "bool", "unsigned long", "long long") and k != "FloatingLiteral":
+            return True
+        if k == "IntegerLiteral":
+            return True
+        if k == "FloatingLiteral":
+            try:
+                return float(e.get("value")) == int(float(e.get("value")))
+            except Exception:
+                return False
+        if k in ("CallExpr", "CXXOperatorCallExpr", "CXXMemberCallExpr"):
+            cp = call_parts(e)
+            nm = cp[0] if cp else name_of(kids(e)[0]) if kids(e) else None
+            if nm in ("floor", "ceil", "round", "trunc", "nearbyint", "rint", "lround", "lrint"):
+                return True
+            if nm in ("max", "min", "abs", "fabs") and cp:
+                return all(integral(a) for a in cp[2])
+            if nm == "operator()" and "poisson_distribution" in cxfe.text(e) + str(kids(e)[1].get("type", {})):
+                return True
+            return False
+        if k == "ConditionalOperator":
+            return integral(kids(e)[1]) and integral(kids(e)[2])
+        if k == "BinaryOperator" and e.get("opcode") in ("+", "-", "*"):
+            return integral(kids(e)[0]) and integral(kids(e)[1])
+        if k == "UnaryOperator" and e.get("opcode") in ("-", "+"):
+            return integral(kids(e)[0])
+        return False
+    ni = 0
+    for s2, _ in recs:
+        if s2.op in ("++", "--"):
+            continue
+        if s2.rhs is None:
+            continue
+        ni += 1
+        ctx.check(integral(s2.rhs), R, s2.node, f.qual, text(s2.node)[:80], "a whole number (floor / round / an integer draw, "
+                  "combined by max, +, -)", "the value stored into the drawn state is not a whole number by construction "
+                  "(`%s`): the recorded t = 0 state of a stochastic engine holds fractions" % text(s2.rhs)[:60])
+    ctx.need(ni >= 2, R, "stores into the drawn state not found")
+    ctx.floor(R, 2)
 
 
 def rule_every_entry(ctx, tu, I):
